@@ -3,7 +3,6 @@ package props
 import (
 	"bytes"
 	"fmt"
-	"os"
 
 	gots "github.com/Comcast/gots/v2"
 	"github.com/Comcast/gots/v2/scte35"
@@ -41,17 +40,13 @@ type C09Script struct {
 
 type c09 struct{}
 
-func init() {
-	if os.Getenv("GOTSIM_C09_WIP") != "" { // under construction: not registered yet
-		core.Register(c09{})
-	}
-}
+func init() { core.Register(c09{}) }
 
 func (c09) ID() string       { return "C09" }
 func (c09) New() interface{} { return &C09Script{} }
 func (c09) Info() core.Info {
 	return core.Info{
-		Runs: map[string]int{"quick": 400000, "thorough": 40000000},
+		Runs: map[string]int{"quick": 2000000, "thorough": 200000000},
 		Rule: "Each run is a scripted caller history over a graph of mutable objects: one signal (created empty, or decoded from a reference-serialised canonical section with splice_null / time_signal / splice_insert, 0..3 segmentation descriptors and foreign descriptors), a pool of three command objects (null, time_signal, splice_insert) and three segmentation descriptors built through the creation API. The history (<=40 steps) calls every setter of the signal, the commands and the descriptors in any order (flags set and cleared, values at and beyond the field widths, UPID / multiple-UPID changes incl. the documented no-effect combinations, component lists), attaches and replaces commands and descriptor lists, and encodes at arbitrary points. After every step every getter of every object is compared with a logical model and Data() must still be the bytes of the last encoding; at every encoding the bytes are compared with the reference serialisation of the model (SCTE 35 syntax tables; pts_adjustment is only compared when the command carries a time), the CRC of the whole section must be zero, a second UpdateData must return the same bytes, the bytes are decoded again and every visible field compared, and the decoded signal is re-encoded and must reproduce the bytes. Non-trivial = at least one reach probe fired.",
 		Real: []string{"scte35.CreateSCTE35 / CreateSpliceNull / CreateTimeSignalCommand / CreateSpliceInsertCommand / CreateSegmentationDescriptor / CreateUPID / CreateComponentOffset", "every Set* of SCTE35, SpliceCommand, SpliceInsertCommand, SegmentationDescriptor", "SCTE35.UpdateData / Data", "SpliceCommand.Data / SegmentationDescriptor.Data", "scte35.NewSCTE35 (decode of the encoded bytes)", "all getters"},
 		Stub: []string{"the caller (scripted history)", "reference serialiser + CRC (ref.Section)", "logical model of the object graph"},
@@ -62,7 +57,7 @@ func (c09) Info() core.Info {
 			"sub-segment fields are compared only for types 0x34 / 0x36; what SetTypeID to another type does to the flag is not compared until the flag is set again",
 			"fields the encoding does not carry (restriction flags under delivery_not_restricted, duration without its flag, everything behind a cancel indicator) are not compared after decoding",
 			"values beyond a field's width are truncated to the width, in the getter as in the encoding",
-			"a program-mode, non-immediate splice_insert without a specified time is encoded but not decoded by the library (unsupported command): the decode step is skipped for it",
+			"a time_signal, or a program-mode non-immediate splice_insert, whose splice_time specifies no time is encoded but not decoded by the library (it documents them as unsupported commands): the decode step is skipped for them",
 			"sections with alignment stuffing are not 'canonical': re-encoding their decoded form need not reproduce the stuffing",
 			"on a decoded signal with foreign descriptors the descriptor list is not replaced (where foreign descriptors would go is not defined); their order relative to segmentation descriptors must be kept",
 		},
@@ -390,7 +385,8 @@ func (c09) Exec(script interface{}, c *core.Ctx) {
 	curCmd := ""
 	var items []string // names of attached descriptors, "f<i>" for foreign ones
 	foreign := map[string]core.Hex{}
-	var lastEnc []byte // snapshot of the last encoding (nil: none yet)
+	var heldRaw []c09Held // the slices earlier UpdateData calls returned: they are the caller's
+	var lastEnc []byte    // snapshot of the last encoding (nil: none yet)
 	haveEnc := false
 
 	ok := c.Call("create objects", func() {
@@ -425,7 +421,8 @@ func (c09) Exec(script interface{}, c *core.Ctx) {
 			return
 		}
 		if err != nil {
-			if sec.Cmd.Kind == "insert" && !sec.Cmd.Cancel && sec.Cmd.Program && !sec.Cmd.Immediate && !sec.Cmd.Time.Has {
+			if c09Undecodable(sec.Cmd) && err == gots.ErrSCTE35UnsupportedSpliceCommand {
+				c.Probe("command_without_time_not_decoded")
 				return
 			}
 			c.Fail("decode_canonical", "initial_section_not_decoded", err, "a signal")
@@ -508,7 +505,7 @@ func (c09) Exec(script interface{}, c *core.Ctx) {
 					return
 				}
 				if op.U > 0xFFF {
-					c.Probe("value_beyond_field_width")
+					c09Wide(c)
 				}
 				tier = int(op.U & 0xFFF)
 			case "stuffing":
@@ -521,20 +518,20 @@ func (c09) Exec(script interface{}, c *core.Ctx) {
 					return
 				}
 				if op.U > c09Mask33 {
-					c.Probe("value_beyond_field_width")
+					c09Wide(c)
 				}
 				desired = op.U & c09Mask33
 				if cm := cmds[curCmd]; cm.m.Kind != "null" {
 					cm.m.Time.PTS = op.U & c09Mask33
 				} else {
-					c.Probe("no_effect_call")
+					c09NoEffect(c)
 				}
 			case "adjust_pts":
 				if !c.Call("SCTE35.SetAdjustPTS", func() { sc.SetAdjustPTS(gots.PTS(op.U)) }) {
 					return
 				}
 				if op.U > c09Mask33 {
-					c.Probe("value_beyond_field_width")
+					c09Wide(c)
 				}
 				desired = op.U & c09Mask33
 			case "has_pts":
@@ -547,7 +544,7 @@ func (c09) Exec(script interface{}, c *core.Ctx) {
 					}
 					cm.m.Time.Has = op.B
 				} else {
-					c.Probe("no_effect_call")
+					c09NoEffect(c)
 				}
 			case "set_cmd":
 				if len(op.List) != 1 || cmds[op.List[0]] == nil {
@@ -584,7 +581,7 @@ func (c09) Exec(script interface{}, c *core.Ctx) {
 				}
 				items = names
 			case "encode":
-				if !c09Encode(c, sc, section(), &lastEnc, &haveEnc, descs, items) {
+				if !c09Encode(c, sc, section(), &lastEnc, &haveEnc, descs, items, &heldRaw) {
 					return
 				}
 			}
@@ -605,6 +602,12 @@ func (c09) Exec(script interface{}, c *core.Ctx) {
 		if !c09Getters(c, sc, cmds, descs, curCmd, items, tier, stuffing, desired) {
 			return
 		}
+		for _, h := range heldRaw {
+			if !bytes.Equal(h.raw, h.snap) {
+				c.Fail("returned_encoding_unchanged", "earlier_update_data_result_changed:"+opClass(op), fmt.Sprintf("%x", h.raw), fmt.Sprintf("%x", h.snap))
+				return
+			}
+		}
 		if haveEnc && op.Op != "encode" {
 			var d []byte
 			if !c.Call("SCTE35.Data", func() { d = sc.Data() }) {
@@ -617,6 +620,28 @@ func (c09) Exec(script interface{}, c *core.Ctx) {
 			c.Probe("data_unchanged_between_encodings")
 		}
 	}
+}
+
+// c09Undecodable: commands the decoder documents as unsupported - a time_signal, or a
+// program-mode non-immediate splice_insert, whose splice_time specifies no time.
+func c09Undecodable(cm ref.Cmd) bool {
+	switch cm.Kind {
+	case "time":
+		return !cm.Time.Has
+	case "insert":
+		return !cm.Cancel && cm.Program && !cm.Immediate && !cm.Time.Has
+	}
+	return false
+}
+
+func c09Wide(c *core.Ctx) {
+	c.Probe("value_beyond_field_width")
+	c.Fault("caller_value_beyond_field_width")
+}
+
+func c09NoEffect(c *core.Ctx) {
+	c.Probe("no_effect_call")
+	c.Fault("caller_documented_no_effect_call")
 }
 
 func opClass(op C09Op) string {
@@ -667,7 +692,7 @@ func c09CmdOp(c *core.Ctx, cm *c09Cmd, op C09Op) bool {
 			return false
 		}
 		if m.Kind == "null" {
-			c.Probe("no_effect_call")
+			c09NoEffect(c)
 		} else {
 			flag(&m.Time.Has)
 		}
@@ -676,10 +701,10 @@ func c09CmdOp(c *core.Ctx, cm *c09Cmd, op C09Op) bool {
 			return false
 		}
 		if op.U > c09Mask33 {
-			c.Probe("value_beyond_field_width")
+			c09Wide(c)
 		}
 		if m.Kind == "null" {
-			c.Probe("no_effect_call")
+			c09NoEffect(c)
 		} else {
 			m.Time.PTS = op.U & c09Mask33
 		}
@@ -733,7 +758,7 @@ func c09CmdOp(c *core.Ctx, cm *c09Cmd, op C09Op) bool {
 			flag(&m.Auto)
 		case "dur":
 			if op.U > c09Mask33 {
-				c.Probe("value_beyond_field_width")
+				c09Wide(c)
 			}
 			m.Dur = op.U & c09Mask33
 		case "upi":
@@ -834,7 +859,7 @@ func c09DescOp(c *core.Ctx, dd *c09Desc, op C09Op) bool {
 		flag(&m.HasDur)
 	case "dur":
 		if op.U >= 1<<40 {
-			c.Probe("value_beyond_field_width")
+			c09Wide(c)
 		}
 		m.Dur = op.U & (1<<40 - 1)
 	case "not_restricted":
@@ -851,7 +876,7 @@ func c09DescOp(c *core.Ctx, dd *c09Desc, op C09Op) bool {
 		m.Comps = nil
 		for _, k := range op.Comps {
 			if k.Off > c09Mask33 {
-				c.Probe("value_beyond_field_width")
+				c09Wide(c)
 			}
 			m.Comps = append(m.Comps, ref.SegComp{Tag: k.Tag & 0xFF, Off: k.Off & c09Mask33})
 		}
@@ -864,7 +889,7 @@ func c09DescOp(c *core.Ctx, dd *c09Desc, op C09Op) bool {
 		c.Probe("upid_set")
 	case "upid_data":
 		if m.UPIDType == 0x0D {
-			c.Probe("no_effect_call")
+			c09NoEffect(c)
 		} else {
 			m.UPID = append(core.Hex(nil), op.Data...)
 			dd.upidKnown = true
@@ -881,7 +906,7 @@ func c09DescOp(c *core.Ctx, dd *c09Desc, op C09Op) bool {
 		if m.UPIDType == 0x0D {
 			m.MID = append([]ref.UPID(nil), op.MID...)
 		} else {
-			c.Probe("no_effect_call")
+			c09NoEffect(c)
 		}
 	case "type":
 		m.Type = int(op.U & 0xFF)
@@ -1170,7 +1195,9 @@ func c09Getters(c *core.Ctx, sc scte35.SCTE35, cmds map[string]*c09Cmd, descs ma
 }
 
 // c09Encode: UpdateData against the reference, CRC, idempotence, decode, re-encode.
-func c09Encode(c *core.Ctx, sc scte35.SCTE35, sec ref.Section, lastEnc *[]byte, haveEnc *bool, descs map[string]*c09Desc, items []string) bool {
+type c09Held struct{ raw, snap []byte }
+
+func c09Encode(c *core.Ctx, sc scte35.SCTE35, sec ref.Section, lastEnc *[]byte, haveEnc *bool, descs map[string]*c09Desc, items []string, heldRaw *[]c09Held) bool {
 	var enc []byte
 	if !c.Call("SCTE35.UpdateData", func() { enc = sc.UpdateData() }) {
 		return false
@@ -1218,6 +1245,10 @@ func c09Encode(c *core.Ctx, sc scte35.SCTE35, sec ref.Section, lastEnc *[]byte, 
 		}
 	}
 	held := append([]byte(nil), enc...)
+	*heldRaw = append(*heldRaw, c09Held{raw: enc, snap: held})
+	if len(*heldRaw) > 4 {
+		*heldRaw = (*heldRaw)[1:]
+	}
 	if !ambiguous {
 		if len(enc) != len(want) {
 			c.Fail("canonical_encoding", "encoding_length:"+c09Where(sec), fmt.Sprintf("%d bytes: %x", len(enc), enc), fmt.Sprintf("%d bytes: %x", len(want), want))
@@ -1235,6 +1266,28 @@ func c09Encode(c *core.Ctx, sc scte35.SCTE35, sec ref.Section, lastEnc *[]byte, 
 		return false
 	}
 	// the parts encode on their own to the same bytes
+	if !ambiguous {
+		var cb []byte
+		if !c.Call("SpliceCommand.Data", func() { cb = sc.CommandInfo().Data() }) {
+			return false
+		}
+		if !bytes.Equal(cb, sec.Cmd.Bytes()) {
+			c.Fail("canonical_encoding", "command_data_differs:"+sec.Cmd.Kind, fmt.Sprintf("%x", cb), fmt.Sprintf("%x", sec.Cmd.Bytes()))
+			return false
+		}
+		for _, n := range items {
+			if d := descs[n]; d != nil {
+				var db []byte
+				if !c.Call("SegmentationDescriptor.Data", func() { db = d.obj.Data() }) {
+					return false
+				}
+				if !bytes.Equal(db, d.m.Bytes()) {
+					c.Fail("canonical_encoding", "descriptor_data_differs", fmt.Sprintf("%x", db), fmt.Sprintf("%x", d.m.Bytes()))
+					return false
+				}
+			}
+		}
+	}
 	// idempotent
 	var again []byte
 	if !c.Call("SCTE35.UpdateData(again)", func() { again = sc.UpdateData() }) {
@@ -1260,7 +1313,8 @@ func c09Encode(c *core.Ctx, sc scte35.SCTE35, sec ref.Section, lastEnc *[]byte, 
 		return false
 	}
 	if err != nil {
-		if cm.Kind == "insert" && !cm.Cancel && cm.Program && !cm.Immediate && !cm.Time.Has {
+		if c09Undecodable(cm) && err == gots.ErrSCTE35UnsupportedSpliceCommand {
+			c.Probe("command_without_time_not_decoded")
 			return true // documented as unsupported by the decoder
 		}
 		c.Fail("decode_inverse", "own_encoding_not_decoded:"+cm.Kind, err, "a signal")
